@@ -700,7 +700,11 @@ void auto_xact_t::extend_xact(xact_base_t& xact, parse_context_t& context)
   bool needs_further_verification = false;
 
   foreach (post_t * initial_post, initial_posts) {
-    if (initial_post->has_flags(ITEM_GENERATED))
+    // postings generated by automated transactions are never matched; the
+    // postings finalize generates for the further commodities of an elided
+    // amount (ITEM_GENERATED | POST_CALCULATED) are the user's own
+    if (initial_post->has_flags(ITEM_GENERATED) &&
+        ! initial_post->has_flags(POST_CALCULATED))
       continue;
 
     bind_scope_t bound_scope(*scope_t::default_scope, *initial_post);
